@@ -255,6 +255,7 @@ impl Indexable for ast::Defset {
         ctx.scopes.push(ScopeKind::Defset(defset_id));
         self.statement_list()?.index(ctx);
         ctx.scopes.pop();
+        ctx.symbol_map.bind_defset_name(defset_id);
 
         None
     }
